@@ -750,3 +750,6 @@ META = {
 }
 
 META['explanation'] += ' ' + "Further: min_length resolves to max(min_length, ngram) in every ordering (abstractly interpreted); the third pass reads what the first pass read; the scorer's and guesser's OMEN loaders keep every record."
+
+META['explanation'] += ' ' + 'Round 13: the counter of the transition scan is re-initialised on every pass of the level fall-back loop.'
+META['technique'] = META.get('technique', '') + ' + loop-counter lifetime rule for the level fall-back'
